@@ -30,8 +30,10 @@ ItemLink(st) ==
                 p \in {q \in PathSet : st[q] \in {"prod", "same", "diff"}}}]
 
 \* the referenced step: absent, or products given per path; fixed materials
-RefOf(p) == IF p = PB THEN {"abs", "h1"} ELSE {"abs", "h1", "h2"}
-RefStates == {rs \in [PathSet -> {"abs", "h1", "h2"}] :
+\* "s512:h1": the same content as h1 recorded under ANOTHER hash algorithm only - as a digest map it is
+\* neither equal to h1 nor comparable with it
+RefOf(p) == IF p = PB THEN {"abs", "h1"} ELSE IF p = PA THEN {"abs", "h1", "h2", "s512:h1"} ELSE {"abs", "h1", "h2"}
+RefStates == {rs \in [PathSet -> {"abs", "h1", "h2", "s512:h1"}] :
                 \A p \in PathSet : rs[p] \in RefOf(p)}
 RefLink(rs) ==
   [mats  |-> {[p |-> PA, d |-> "h1"], [p |-> PD, d |-> "h2"]},
